@@ -6,7 +6,7 @@ OUT=$1; NAME=$2
 WT=/tmp/seedwt/$NAME
 rm -rf $WT; git -C /repo worktree prune; git -C /repo worktree add -q --detach $WT HEAD || exit 2
 cd $WT
-DEMO=$(python3 -c "import json;print(json.load(open('$OUT/meta.json'))['demo_cmd'])" | sed "s#/tmp/wt2\?/[A-Z0-9]*#$WT#g")
+DEMO=$(python3 -c "import json;print(json.load(open('$OUT/meta.json'))['demo_cmd'])" | sed "s#/tmp/wt[0-9]*/[A-Z0-9]*#$WT#g")
 CRATES=$(git apply --numstat $OUT/patch.diff | awk '{print $3}' | cut -d/ -f1 | sort -u | sed 's/^/libtw2-/' | tr '\n' ' ')
 CRATES=${CRATES_OVERRIDE:-$CRATES}
 echo "demo: $DEMO"; echo "crates: $CRATES"
